@@ -45,6 +45,7 @@ Definition c18_never_stalls (c : case) : bool :=
 
 Definition judge (c : case) : list verdict :=
   [ if corresponds_tc c then VOk else VMismatch;
+    clause "C09_trafficrouting_reconcile_does_not_panic" (negb (k_panic c));
     clause "C18_trafficrouting_finalizer_guard" (c18_finalizer_guard c);
     clause "C18_trafficrouting_deletion_not_blocked" (c18_not_blocked c);
     clause "C18_trafficrouting_teardown_never_stalls" (c18_never_stalls c) ].
